@@ -43,6 +43,15 @@ def run(ctx):
             if rnd.random() < 0.7:
                 lat, kind = rnd.choice(T.LATS)
                 b.insert(rnd.randint(0, len(b)), T.I('S', a=lat, b=kind, s='/x%d_%d' % (p['id'], len(b))))
+    n3 = 0
+    for p in progs:      # three nesting levels: a bundle inside the nested bundle, after it (nk 3) or before it (nk 4: refused)
+        for b in p['routines'].values():
+            if rnd.random() < 0.5:
+                lat, kind = rnd.choice(T.LATS)
+                nl = rnd.choice([0, T.TU // 8, T.TU // 4, T.TU, T.TU])
+                b.insert(rnd.randint(0, len(b)), T.I('S', a=lat, b=kind, s='/y%d_%d' % (p['id'], n3), nk=rnd.choice([3, 4]), na=nl))
+                n3 += 1
+    ctx.cov['three_level_bundles'] = n3
     for p in progs:      # the same bundle (same list objects in the driver) sent again later by the same routine
         for b in p['routines'].values():
             ss = [i for i in b if i['op'] == 'S']
